@@ -167,6 +167,38 @@ Definition append_config (bin cfg : bytes) : res bytes :=
   if already_embedded bin then Err EAlready
   else Ok (bin ++ xor cfg ++ make_footer (N.of_nat (length cfg))).
 
+(** ** Files by identity: source and destination may be the same file
+    (the same path, a symbolic or hard link to it, another spelling of the
+    path).  AppendConfig reads the complete source (os.ReadFile) BEFORE it
+    opens the destination with O_TRUNC, and CopyBinaryWithoutConfig reads the
+    original part before os.WriteFile truncates the destination, so both
+    work in place: the new content is computed from the old state. *)
+Definition fstate := list (N * bytes).
+
+Fixpoint fget (st : fstate) (i : N) : bytes :=
+  match st with [] => [] | (j, c) :: st' => if N.eqb i j then c else fget st' i end.
+
+Definition fset (st : fstate) (i : N) (c : bytes) : fstate := (i, c) :: st.
+
+Definition append_config_at (st : fstate) (src dst : N) (cfg : bytes) : fstate * res unit :=
+  match append_config (fget st src) cfg with
+  | Ok f => (fset st dst f, Ok tt)
+  | Err e => (st, Err e)
+  end.
+
+Definition strip_at (st : fstate) (src dst : N) : fstate * res unit :=
+  match snd (copy_without_config (fget st src)) with
+  | Ok d => (fset st dst d, Ok tt)
+  | Err e => (st, Err e)
+  end.
+
+(** what a streaming implementation would do when source and destination are
+    one file: the destination is truncated first, the source is then empty *)
+Definition append_config_streaming_at (st : fstate) (src dst : N) (cfg : bytes) : fstate * res unit :=
+  if already_embedded (fget st src) then (st, Err EAlready)
+  else let st1 := fset st dst [] in
+       (fset st1 dst (fget st1 src ++ xor cfg ++ make_footer (N.of_nat (length cfg))), Ok tt).
+
 (** ** Behaviour before the repairs *)
 Definition read_embedded_pre_fix (f : bytes) : effects * res bytes :=
   let size := fsize f in
@@ -227,7 +259,8 @@ Definition obs_int := (N * Z)%type.
 Inductive ecase :=
 | CXor (input output : String.string)
 | CReader (file : String.string) (has : N * bool) (rd : obs_bytes) (sz : obs_int) (cp : obs_bytes)
-| CRound (bin cfg : String.string) (ap : obs_bytes) (has : N * bool) (rd : obs_bytes) (sz : obs_int) (cp : obs_bytes).
+| CRound (same_file : bool) (bin cfg : String.string) (ap : obs_bytes) (has : N * bool) (rd : obs_bytes) (sz : obs_int) (cp : obs_bytes)
+         (src_after : String.string) (strip_in_place : obs_bytes).
 
 Definition agree_bytes (m : res bytes) (o : obs_bytes) : bool :=
   match m with
@@ -253,10 +286,20 @@ Definition case_ok (c : ecase) : bool :=
   match c with
   | CXor i o => bytes_eqb (xor (hexs i)) (hexs o)
   | CReader file has rd sz cp => readers_agree (hexs file) has rd sz cp
-  | CRound bin cfg ap has rd sz cp =>
-    match append_config (hexs bin) (hexs cfg) with
-    | Err e => N.eqb (fst ap) (err_code e)
-    | Ok f => N.eqb (fst ap) 0 && bytes_eqb f (hexs (snd ap)) && readers_agree f has rd sz cp
+  | CRound same bin cfg ap has rd sz cp src_after sip =>
+    (* file 1 holds the binary; the destination is file 1 itself or the (absent) file 2 *)
+    let st0 : fstate := [(1%N, hexs bin)] in
+    let dst := if same then 1%N else 2%N in
+    match append_config_at st0 1%N dst (hexs cfg) with
+    | (_, Err e) => N.eqb (fst ap) (err_code e) && bytes_eqb (fget st0 1%N) (hexs src_after)
+    | (st1, Ok _) =>
+      let f := fget st1 dst in
+      N.eqb (fst ap) 0 && bytes_eqb f (hexs (snd ap)) && readers_agree f has rd sz cp &&
+      bytes_eqb (fget st1 1%N) (hexs src_after) &&
+      match strip_at st1 dst dst with
+      | (st2, Ok _) => N.eqb (fst sip) 0 && bytes_eqb (fget st2 dst) (hexs (snd sip))
+      | (_, Err e) => N.eqb (fst sip) (err_code e)
+      end
     end
   end.
 
